@@ -5,6 +5,7 @@ use chunk_io::ChunkDeserializationError;
 use messages::MessagePayload;
 use std::cmp::min;
 use std::collections::HashMap;
+use std::io;
 use std::io::Cursor;
 use std::mem;
 
@@ -370,6 +371,16 @@ impl ChunkDeserializer {
     ) -> Result<ParseStageResult, ChunkDeserializationError> {
         let mut length = self.current_header.message_length as usize;
         let current_payload_length = self.current_payload_data.len();
+        if current_payload_length > length {
+            // The message we are in the middle of receiving has more data than the current chunk's
+            // header says the whole message has, so the peer is not sending valid chunks.
+            let error = io::Error::new(
+                io::ErrorKind::InvalidData,
+                "Chunk header declares a message length smaller than the data already received",
+            );
+            return Err(ChunkDeserializationError::Io(error));
+        }
+
         let remaining_bytes = length - current_payload_length;
         if length > self.max_chunk_size as usize {
             length = min(remaining_bytes, self.max_chunk_size as usize);
